@@ -5,6 +5,8 @@ set -u
 cd /verif
 for d in seeded/*/; do
   n=$(basename "$d")
+  # ONLY=<regex> restricts the run (e.g. ONLY='^C0[1-9](w[23])?_')
+  if [ -n "${ONLY:-}" ] && ! echo "$n" | grep -Eq "$ONLY"; then continue; fi
   ids=$(python3 -c "import json;print(' '.join(json.load(open('$d/meta.json'))['quick_checks_run_against_it'].keys()))")
   git -C /repo diff --quiet || { echo "/repo dirty"; exit 2; }
   git -C /repo apply "$d/patch.diff" || { echo "$n: patch does not apply"; continue; }
